@@ -378,15 +378,21 @@ class Engine:
             parts = []; k = 0
             while k < nb:
                 c2 = o.cells.get(off + k)
-                if c2 is None or k + c2[1] > nb: parts = None; break
+                if c2 is None:
+                    k += 1; continue          # padding / uninitialised byte inside a coerced struct
+                if k + c2[1] > nb: parts = None; break
                 parts.append((k, c2[0], c2[1])); k += c2[1]
+            if parts and any(kk < off + nb and kk + cc[1] > off and not (off <= kk and kk + cc[1] <= off + nb) for kk, cc in o.cells.items()): parts = None
             if parts:
                 if all(isinstance(pv, int) and not isinstance(pv, bool) for (_, pv, _) in parts):
                     raw = 0
                     for (k, pv, pn) in parts: raw |= (pv & ((1 << (8 * pn)) - 1)) << (8 * k)
                     return sgn(raw, nb * 8)
                 return Bundle(parts, nb)
-        if c is None:
+        if c is not None and c[1] > nb and isinstance(c[0], int) and not isinstance(c[0], bool) and t.k == 'int':
+            raw = c[0] & ((1 << (c[1] * 8)) - 1)
+            return sgn(raw, nb * 8)
+        if c is None or c[1] != nb:
             covering = [(k, cc) for k, cc in o.cells.items() if k < off + nb and k + cc[1] > off]
             if not covering:
                 return s.uninit(st, o, off, nb, t)
@@ -396,9 +402,10 @@ class Engine:
                 if isinstance(cc[0], Bundle):
                     for (bo, bv, bn) in cc[0].parts:
                         if k + bo == off and bn == nb: return s.retype(bv, t)
-                if isinstance(cc[0], int) and t.k == 'int' and k <= off and off + nb <= k + cc[1]:
+                if isinstance(cc[0], int) and not isinstance(cc[0], bool) and k <= off and off + nb <= k + cc[1]:
                     raw = cc[0] & ((1 << (cc[1] * 8)) - 1)
-                    return sgn(raw >> (8 * (off - k)), nb * 8)
+                    v = sgn(raw >> (8 * (off - k)), nb * 8)
+                    return s.retype(v, t) if t.k in ('float', 'double') else v
         raise EngineError('unsupported partial/overlapping load at %s+%d width %d (cells %r)' % (o.name, off, nb, sorted(o.cells.items())[:6]))
     def retype(s, v, t):
         if t.k == 'float' and isinstance(v, int) and not isinstance(v, bool):
